@@ -194,7 +194,9 @@ node<P> CoverTreeWrapper<P, DistanceCallback>::batch_insert(DistanceCallback& dc
                 point_set.decr();
             }
             node<P> n = new_node(p);
-            n.scale = 100; // A magic number meant to be larger than all scales.
+            // A magic number meant to be larger than all scales; trees deeper than 100 levels
+            // (distance ratio above 1.3^100) still need it to exceed the scale of the parent.
+            n.scale = std::max(100, top_scale - max_scale);
             n.max_dist = 0;
             alloc_array(children, size(children));
             n.num_children = size(children);
